@@ -8,6 +8,7 @@ package reftable
 // vector with `go test -tags verif -overlay ...`.
 
 import (
+	"runtime"
 	"fmt"
 	"hash"
 	"hash/fnv"
@@ -24,6 +25,9 @@ type verifDiverged struct{ why string }
 // verifCFault: the C code under test crashed, aborted or tripped the sanitizer (C15).
 type verifCFault struct{ why string }
 type verifAssumeFailed struct{}
+
+// verifAllocExceeded: the code under test allocated more than the budget the harness stated (C18).
+type verifAllocExceeded struct{ bytes uint64 }
 type verifAssertFailed struct{ label string }
 
 var verifNative struct {
@@ -35,6 +39,7 @@ var verifNative struct {
 	dirs     []string
 	monitors map[string]bool
 	faultOpen int // > 0: the n-th following os.Open of the code under test fails
+	allocBase, allocBudget uint64
 	monitorHits []string
 	frozen   []interface{}
 }
@@ -49,6 +54,7 @@ func verifReset(vec []int64, tier int) {
 	verifNative.monitors = map[string]bool{}
 	verifNative.monitorHits = nil
 	verifNative.faultOpen = 0
+	verifNative.allocBudget = 0
 	verifSchedReset()
 }
 
@@ -144,6 +150,32 @@ func VerifStepBudget(n int) {}
 // VerifFaultOpen injects one I/O fault: the n-th os.Open (n >= 1) that the
 // code under test performs from now on fails with "too many open files".
 func VerifFaultOpen(n int) { verifNative.faultOpen = n }
+
+// VerifAllocBudget declares that the code running until VerifAllocEnd may
+// allocate at most n bytes in total ("allocates without bound", C18).  The
+// engine adds up the sizes of the slices the interpreted code makes and of
+// what the inflater hands out; natively the runtime's allocation counter is
+// read at both ends.
+func VerifAllocBudget(n int) {
+	var ms runtime.MemStats
+	runtime.ReadMemStats(&ms)
+	verifNative.allocBase, verifNative.allocBudget = ms.TotalAlloc, uint64(n)
+}
+
+// VerifAllocEnd ends the region opened by VerifAllocBudget.
+func VerifAllocEnd() {
+	if verifNative.allocBudget == 0 {
+		return
+	}
+	var ms runtime.MemStats
+	runtime.ReadMemStats(&ms)
+	used := ms.TotalAlloc - verifNative.allocBase
+	budget := verifNative.allocBudget
+	verifNative.allocBudget = 0
+	if used > budget {
+		panic(verifAllocExceeded{used})
+	}
+}
 
 // VerifQuiet runs f without recording its filesystem steps in the trace that
 // is compared between the model and the real filesystem (for harness-level
